@@ -211,7 +211,15 @@ def check_reject(ctx, repo):
     ctx.check('C17.REJ-MASKS', okq, f, qd[0] if qd else f.node, 'qdone = all(newmask == outmask), evaluated on the incoming outmask before it is rebound',
               msg='qdone is `%s`: completion is not reported exactly when the mask did not change' % (src(qd[0].value) if qd else 'missing'),
               construct='qdone ' + (src(qd[0].value) if qd else ''))
-    # thresholds: four comparisons
+    check_thresholds(ctx, f, fa, 'C17.REJ-MASKS')
+
+
+def check_thresholds(ctx, f, fa, rule):
+    """lower uses diff < -lower*sigma, upper uses diff > upper*sigma, each in the sigma and in the invvar branch."""
+    def res(n):
+        if n.id in ('diff', 'sigma', 'lower', 'upper', 'invvar'):
+            return None
+        return fa.resolve(n)
     for side, opcls, sign in (('lower', ast.Lt, -1), ('upper', ast.Gt, 1)):
         blk = [n for n in walk_local(f.node) if isinstance(n, ast.If) and src(n.test) == '%s is not None' % side]
         ctx.need(blk, 'djs_reject: %s block not found' % side)
@@ -227,8 +235,8 @@ def check_reject(ctx, repo):
             form = ''
             if ok:
                 try:
-                    l = poly_of(c.left, atom=at)
-                    r = poly_of(c.comparators[0], atom=at)
+                    l = poly_of(c.left, atom=at, resolve=res)
+                    r = poly_of(c.comparators[0], atom=at, resolve=res)
                     if l == Poly.atom('diff'):
                         ok = r == Poly.atom(side).scale(sign) * Poly.atom('sigma')
                         form = 'diff %s %s*%s*sigma' % ('<' if sign < 0 else '>', sign, side)
@@ -237,7 +245,7 @@ def check_reject(ctx, repo):
                         form = 'diff*sqrt(invvar) %s %s*%s' % ('<' if sign < 0 else '>', sign, side)
                 except NotPoly:
                     ok = False
-            ctx.check('C17.REJ-MASKS', ok, f, st, '%s limit: %s' % (side, form or src(c)),
+            ctx.check(rule, ok, f, st, '%s limit: %s' % (side, form or src(c)),
                       msg='the %s rejection test is `%s` (expected diff %s %s%s*sigma, resp. diff*sqrt(invvar) %s %s%s)'
                           % (side, src(c), '<' if sign < 0 else '>', '-' if sign < 0 else '', side, '<' if sign < 0 else '>', '-' if sign < 0 else '', side),
                       construct='%s test %s' % (side, src(c)))
